@@ -81,3 +81,32 @@ Lemma known_reimport_witness :
   exists st' evs, step WT wfuel st (OInsert [1;2]) = (st', evs, None) /\
                   canon st' 2 = Some 2 /\ added_logs evs = [] /\ removed_logs evs = [200].
 Proof. split; [vm_compute; reflexivity|]. eexists. eexists. split; [vm_compute; reflexivity|]. repeat split; reflexivity. Qed.
+
+(* the statements exactly as Properties/C38.v gives them *)
+Lemma no_entry_above_head_refuted :
+  exists (T : tree) (fuel : nat) (ops : list op), wf_tree T /\
+    let st := run T fuel genesis_db ops in
+    hd_header st = 5 /\ hd_block st = 5 /\ num_of T 5 = 1 /\ canon st 1 = Some 5 /\
+    canon st 2 = Some 2 /\ anc T 2 1 = Some 1 /\ resolve_tx T st 7 = Some (2, 2).
+Proof. exists WT, wfuel, stale_ops. split; [exact WT_wf|]. vm_compute. repeat split; reflexivity. Qed.
+
+Lemma set_canonical_reemits_logs_refuted :
+  exists (T : tree) fuel st, canon st 2 = Some 2 /\
+    exists st' evs, step T fuel st (OSetCanonical 2) = (st', evs, None) /\
+                    added_logs evs = [100] /\ removed_logs evs = [].
+Proof.
+  exists WT, wfuel, (wrun [OInsert [1;2;3]]). split; [vm_compute; reflexivity|].
+  eexists. eexists. split; [vm_compute; reflexivity|]. split; reflexivity.
+Qed.
+
+Lemma known_reimport_silent_refuted :
+  exists (T : tree) fuel st, canon st 2 = None /\
+    exists st' evs, step T fuel st (OInsert [1;2]) = (st', evs, None) /\
+                    canon st' 2 = Some 2 /\ added_logs evs = [] /\ removed_logs evs = [200].
+Proof.
+  exists WT, wfuel, (wrun [OInsert [1;2]; OInsert [5]]). split; [vm_compute; reflexivity|].
+  eexists. eexists. split; [vm_compute; reflexivity|]. repeat split; reflexivity.
+Qed.
+
+Lemma nonvacuous : wf_tree WT /\ nonvacuous_check = true.
+Proof. split; [exact WT_wf | exact nonvacuous_ok]. Qed.
